@@ -204,6 +204,8 @@ pub struct Divergence {
 }
 
 pub struct LockStep {
+    /// Further properties the same divergence violates (reported next to the primary attribution).
+    pub secondary: Vec<(&'static str, &'static str, String)>,
     vm_addr: usize,
     pub m: Machine,
     ops: Arc<Vec<Op>>,
@@ -420,6 +422,11 @@ impl LockStep {
                 if !failed {
                     let over = vm.stack.len() > model::STACK_MAX || vm.memory.len().unwrap_or(Word::MAX) as usize > model::MEM_MAX;
                     let data_op = matches!(op, Op::Stack(_) | Op::Memory(_) | Op::Compute(_));
+                    if r == Err(Fail::OutOfGas) && env.child_alone_oog && matches!(op, Op::Compute(_)) {
+                        // one child runs out of gas all by itself: "any child error fails the parent" (C10) is
+                        // broken as well as the limit (C07)
+                        self.secondary.push(("C10", "child-error-swallowed", format!("{op:?} at pc {} succeeded although one of its children alone needs more gas than was left at the fork", vm.pc)));
+                    }
                     let (p, k) = if r == Err(Fail::OutOfGas) {
                         ("C07", "children-beyond-limit")
                     } else if over && !data_op {
@@ -639,6 +646,7 @@ pub fn run_real(
         if lockstep {
             LOCKSTEP.with(|ls| {
                 *ls.borrow_mut() = Some(LockStep {
+                    secondary: vec![],
                     vm_addr: &vm as *const Vm as usize,
                     m: m.clone(),
                     ops: ctx.ops.clone(),
@@ -798,6 +806,9 @@ pub fn judge(case: &VmCase, rep: &mut Report, mon: &Monitor, pools: &mut Pools, 
         rep.add("lockstep.ops_checked", ls.steps_checked);
         if let Some(why) = ls.stopped {
             rep.count(&format!("unspecified.lockstep.{why}"));
+        }
+        for (p, k, detail) in &ls.secondary {
+            rep.violation(p, k, detail.clone(), case_json());
         }
         if let Some(d) = &ls.divergence {
             lock_div = true;
